@@ -106,6 +106,9 @@ PROPS["C18"] = P(["tlv_dec"],
     assumptions=["env/bytes.rs describes bytes-1.6 Buf for &[u8], Bytes and Take<Bytes>", "64-bit target"],
     bounded=[])
 
-NOT_APPLICABLE = {}
+NOT_APPLICABLE = {
+    "C15": "planned as unit waitpay (DESIGN.md section 7, C15) but not built in the time available: wait_payment needs the join! expansion, an env model of FuturesUnordered and per-part ghost sets; no other technique is used instead. wait_payment enters pay/payment_lifecycle under its assumed interface contract.",
+    "C17": "the codec half (MultiLineCodec::decode/encode, find_separator) was planned as unit codec but not built in the time available; 'one reply per request id' and 'concurrent writes never interleave' live in tokio::spawn'ed boxed callbacks, json! and FramedWrite behind a mutex -- concurrency in third-party machinery, no contract within reach (DESIGN.md section 10).",
+}
 HOOK_COMMITS = ["a595cb4", "8d4e42a", "747697f", "d2148d0"]
 NOTES = "Contract-based deductive verification of the real code; see DESIGN.md. exit 2 = undecided (never a VIOLATION)."
